@@ -268,12 +268,22 @@ Definition is_x_header (n : string) : bool := prefix "X-" n.
 
 Definition nonempty (kv : string * string) : bool := negb (String.eqb (snd kv) "").
 
-(** the configured names with the values the request has for them ("" if absent) *)
-Definition fwd_pairs (names : list string) (m : alist) : alist :=
-  map (fun n => (n, or_default "" (lookup n m))) names.
+(** header names are case-insensitive: a configured name may be spelled in any case (the spellings the
+    harness uses are listed; cookie names are not affected), requests and what is sent or handed on carry
+    the canonical MIME name *)
+Definition canon_name (n : string) : string :=
+  if str_in n ["X-Up"; "x-up"; "X-UP"; "x-Up"] then "X-Up"
+  else if str_in n ["X-Up2"; "x-up2"; "X-UP2"; "x-uP2"] then "X-Up2"
+  else if str_in n ["X-F1"; "x-f1"; "X-f1"] then "X-F1"
+  else if str_in n ["X-F2"; "x-f2"; "x-F2"] then "X-F2" else n.
 
-(** what is forwarded: the names with a non-empty value *)
-Definition fwd (names : list string) (m : alist) : alist := filter nonempty (fwd_pairs names m).
+(** the configured names (as spelled) with the values the request has for them ("" if absent) *)
+Definition fwd_pairs (names : list string) (m : alist) : alist :=
+  map (fun n => (n, or_default "" (lookup (canon_name n) m))) names.
+
+(** what is forwarded: the (canonical) names with a non-empty value *)
+Definition fwd (names : list string) (m : alist) : alist :=
+  filter nonempty (map (fun kv => (canon_name (fst kv), snd kv)) (fwd_pairs names m)).
 
 (** http.Header.Set: replace an existing entry of that name, else append *)
 Fixpoint hset (k v : string) (m : alist) : alist :=
@@ -441,12 +451,12 @@ Definition policy_ok (i : inst) (r : result) : bool :=
     cached response as from a fresh one.  The harness's authorization endpoint
     sets X-Up and X-Up2 from the request body. *)
 Definition response_header (n : string) (s : sent) : string :=
-  if String.eqb n "X-Up" then ("u1:" ++ s_body s)%string
-  else if String.eqb n "X-Up2" then ("u2:" ++ s_body s)%string else "".
+  if String.eqb (canon_name n) "X-Up" then ("u1:" ++ s_body s)%string
+  else if String.eqb (canon_name n) "X-Up2" then ("u2:" ++ s_body s)%string else "".
 
 Definition upstream_of (i : inst) (o : outcome) : alist :=
   match i_kind i, o with
-  | KRemote, OAllow r => filter nonempty (map (fun n => (n, response_header n (rs_sent r))) (i_up i))
+  | KRemote, OAllow r => filter nonempty (map (fun n => (canon_name n, response_header n (rs_sent r))) (i_up i))
   | _, _ => []
   end.
 
